@@ -126,6 +126,19 @@ CLAIMED = {
         technique="static analysis: switch exhaustiveness against the registration API, must-facts bounds, resolved-callee ordering "
         "(must-pass-through), result-use discipline",
     ),
+    "C14": dict(
+        text="Static analysis of the current source. Decides for LmToProjData::process_data: the segment and TOF batch loops step by "
+        "their window width with window end min(max+1,start+width)-1 and the store is guarded by start<=coordinate<=end for both (every "
+        "accepted event is stored in exactly one pass, whatever the numbers held in memory); later passes over a frame rewind to the "
+        "saved frame start and reset the clock, the first pass saves that position after skipping to the frame start; the store is "
+        "dominated by range tests of tangential, axial and TOF index and bin_value>0 is the first acceptance test; the amount added is "
+        "bin_value*event_increment with the documented prompt/delayed increment and the event budget decreases by the same increment; "
+        "each allocated batch is saved and freed with the same window on every normal path; list-mode subsets select events by the "
+        "residue class of the basic view. NOT decided: event->detector decoding per scanner, time-frame arithmetic, frame additivity, "
+        "list-mode gradient = sinogram gradient (numerical).",
+        technique="static analysis: normalised loop descriptors, interval entailment from must-facts with a callee effect summary, "
+        "must-pass-through pairing",
+    ),
 }
 
 NOT_APPLICABLE = {
